@@ -111,6 +111,14 @@ func options(k optKind) *slog.HandlerOptions {
 		return &slog.HandlerOptions{Level: slog.LevelInfo, ReplaceAttr: slogutil.ReplaceLevel}
 	case 5:
 		return &slog.HandlerOptions{AddSource: true, Level: slog.Level(-8)}
+	case 13:
+		return &slog.HandlerOptions{Level: verbosity(2)} // a Leveler type of the application's own
+	case 14:
+		lv := &slog.LevelVar{}
+		lv.Set(slog.LevelDebug)
+		return &slog.HandlerOptions{Level: lv}
+	case 15:
+		return &slog.HandlerOptions{Level: &ptrLeveler{slog.LevelError + 2}}
 	case 11:
 		return &slog.HandlerOptions{Level: slog.Level(math.MinInt64)} // "log everything"
 	case 12:
@@ -143,7 +151,19 @@ func options(k optKind) *slog.HandlerOptions {
 	}
 }
 
-const nOpts = 13
+const nOpts = 16
+
+// verbosity is a constant slog.Leveler that is neither slog.Level nor *slog.LevelVar: 0 errors only ... 3 debug.
+type verbosity int
+
+func (v verbosity) Level() slog.Level {
+	return []slog.Level{slog.LevelError, slog.LevelWarn, slog.LevelInfo - 1, slog.LevelDebug}[int(v)%4]
+}
+
+// ptrLeveler is a Leveler with a pointer receiver.
+type ptrLeveler struct{ l slog.Level }
+
+func (p *ptrLeveler) Level() slog.Level { return p.l }
 
 // viaNew gives the Config of the option sets that are built through slogutil.New.
 func viaNew(k optKind) (lvl slog.Level, addTimestamp bool) {
